@@ -195,5 +195,5 @@ Proof. exact merge_hyps_example. Qed.
 (** a table with Scope directives - absolute, relative, nested, one whose target does not exist yet - parses (all passes) *)
 Example C12_merge_runs :
   fst (fst (load [[0x10; 0x0d; 0x5c; 0x5f; 0x53; 0x42; 0x5f; 0x08; 0x41; 0x42; 0x43; 0x44; 0x0a; 0x05;
-                   0x10; 0x0f; 0x5f; 0x53; 0x42; 0x5f; 0x10; 0x0a; 0x5e; 0x5f; 0x54; 0x5a; 0x5f; 0x08; 0x58; 0x58; 0x58; 0x58; 0x00]])) = 0.
+                   0x10; 0x12; 0x5f; 0x53; 0x42; 0x5f; 0x10; 0x0c; 0x5e; 0x5f; 0x54; 0x5a; 0x5f; 0x08; 0x58; 0x58; 0x58; 0x58; 0x00]])) = 0.
 Proof. vm_compute. reflexivity. Qed.
